@@ -118,6 +118,7 @@ struct GenProfile {
 	bool in_contract = false;    // C18 profile: never exceed the substitution limit etc.
 	bool neutral = false;        // C19 profile: only feature-neutral operations
 	bool ignore_log = false;     // generate as if the build had no logging (cross-build comparison for C16)
+	std::string use;             // with `neutral`: the features (P, S, H) the generated program nevertheless uses
 	int max_ops = 24;
 };
 Case generate_case(Rng& rng, const SutInfo& info, const GenProfile& prof);
